@@ -113,7 +113,7 @@ class C10(BaseCheck):
   ASSUMPTIONS = ('virtual clock: no timer lateness is injected (J=0), so lateness bounds are exact',
                  'rounded deadline computed in exact rationals; actions within 2us of a grid '
                  'point are exempt from the ordering clause only')
-  QUICK_CASES = 600
+  QUICK_CASES = 2400
   THOROUGH_CASES = 30000
   QUICK_WALL = 30
   THOROUGH_WALL = 400
